@@ -150,3 +150,35 @@ Definition check_slice (tol : Q)
     let '(ok2, e2, k2) := probes_err (mig_probe_err g gs t) 0 mp e1 in
     if negb ok2 then (false, (3000 + k2)%Z) else (Qle_bool e2 tol, Qlog2 e2)
   end.
+
+(** ** the model's program written out as a flat list of integers, for the harness: the program is the model's claim
+    of what the equivalent hand-written dadi model of a graph is; the harness executes it call by call against
+    dadi.PhiManip / dadi.Integration / Spectrum.from_phi and compares the spectrum with from_demes of the graph.
+    A rational is written (numerator, denominator) in lowest terms, a list is preceded by its length. *)
+Local Open Scope Z_scope.
+Definition tokQ (x : Q) : list Z := let r := Qred x in [Qnum r; Zpos (Qden r)].
+Definition tokN (n : nat) : list Z := [Z.of_nat n].
+Definition tokB (b : bool) : list Z := [if b then 1 else 0].
+Definition tokL {A} (f : A -> list Z) (l : list A) : list Z := Z.of_nat (length l) :: flat_map f l.
+Definition tok_fname (f : fname) : list Z :=
+  match f with
+  | F_phi_1D => [0; 0; 0] | F_one_pop => [1; 0; 0] | F_two_pops => [2; 0; 0] | F_three_pops => [3; 0; 0]
+  | F_four_pops => [4; 0; 0] | F_five_pops => [5; 0; 0] | F_phi_1D_to_2D => [6; 0; 0] | F_split_1 => [7; 0; 0]
+  | F_split_2 => [8; 0; 0] | F_2D_to_3D_admix => [9; 0; 0] | F_3D_to_4D => [10; 0; 0] | F_4D_to_5D => [11; 0; 0]
+  | F_pulse d k => [12; Z.of_nat d; Z.of_nat k]
+  | F_remove_pop => [13; 0; 0] | F_reorder_pops => [14; 0; 0] | F_from_phi => [15; 0; 0]
+  | F_error c => [16; Z.of_nat c; 0]
+  end.
+Definition tok_sizefn (s : sizefn Q) : list Z :=
+  match s with
+  | SNum a => 0 :: tokQ a ++ tokQ 0%Q ++ tokQ 0%Q
+  | SFConst a => 1 :: tokQ a ++ tokQ 0%Q ++ tokQ 0%Q
+  | SFLin a b T => 2 :: tokQ a ++ tokQ b ++ tokQ T
+  | SFExp a r T => 3 :: tokQ a ++ tokQ r ++ tokQ T
+  end.
+Definition tok_call (c : call Q) : list Z :=
+  tok_fname (c_fn c) ++ tokQ (c_T c) ++ tokL tok_sizefn (c_nus c) ++ tokL tokQ (c_fs c) ++ tokL tokB (c_fr c)
+  ++ tokL tokN (c_ns c) ++ tokL tokN (c_ids c).
+Definition dump_prog (p : list (call Q)) : list Z := tokL tok_call p.
+(** [(case id, program)] -> id, tokens of the program, id, tokens, ... *)
+Definition dump_progs (l : list (Z * list (call Q))) : list Z := flat_map (fun p => fst p :: dump_prog (snd p)) l.
